@@ -15,7 +15,7 @@ semantics), clap's own parsing."""
 import re
 
 from ..common import find_nodes, guards, lib_reachable, short, src_file, where
-from ..exprs import format_parts, closure_of, decode_fmt_template, mentions, strip, subst_closure
+from ..exprs import expand_combinators, inline_calls, simplify, format_parts, closure_of, decode_fmt_template, mentions, strip, subst_closure
 from ..mirlib import Expr, Program, expr_str, op_const, op_place
 
 MAIN = "svgbob_cli::main"
@@ -203,6 +203,9 @@ def run(run):
             run.bad("C19.X1", "output-selection", where(writes[0][1]), "fs::write is not guarded by value_of(\"output\")")
     # ---------------- X2 input selection
     text = strip(ex.operand(lt["args"][0]))
+    # `input.map_or_else(read_stdin, read_file)`: the combinator is expanded into its alternatives and the CLI's own helper
+    # functions are replaced by what they return, so the three sources look the same as when written in place
+    text = strip(simplify(inline_calls(prog, expand_combinators(prog, text), crate="svgbob_cli", depth=2)))
     members = []
 
     def flat(e):
@@ -646,7 +649,8 @@ def x9(run):
                 stem = []
                 mentions(a, lambda z: z[0] == "call" and z[1].endswith("Path::file_stem") and stem.append(z) and False)
                 # the stem is taken from the very path that is converted (same value up to clones / derefs)
-                if len(stem) == 1 and stem[0][2] and core(stem[0][2][0]) == core(src) and mentions(src, any_next):
+                per_item = mentions(src, any_next) or ("{closure" in q and mentions(src, lambda z: z[0] == "param" and z[1] >= 2))
+                if len(stem) == 1 and stem[0][2] and core(stem[0][2][0]) == core(src) and per_item:
                     ok = True
         if ok:
             run.ok("C19.X9", "build writes <out dir>/<file stem of the entry>.svg (constant suffix appended to the whole stem)", where(t))
